@@ -728,8 +728,8 @@ def run_group(case):
 # ------------------------------------------------------------------------------------------------------
 # stage 'intervals': the documented alternative to the Lebedev rules - a mid-point rule on (phi, theta) intervals
 # (setIntegrationIntervals).  The algebraic clauses of the statement hold for any quadrature and are asserted at rounding level;
-# agreement with the independent reference is asserted only coarsely (1e-2 at 64 x 64 intervals, and the error must not grow
-# from 32 x 32 to 64 x 64): a mid-point rule converges slowly, what matters is that it converges to the right number.
+# agreement with the independent reference is asserted only coarsely (1e-2 at 64 x 64 intervals, and the error must not grow by
+# more than 1e-3 from 32 x 32 to 64 x 64): a mid-point rule converges slowly, what matters is that it converges to the right number.
 
 def run_intervals(case):
     matname, rotname, axname, prec, eigname = case['matrix'], case['rot'], case['axes'], case['prec'], case['eig']
@@ -796,7 +796,7 @@ def run_intervals(case):
             if not last <= 1e-2:
                 V.add('intervals/reference%s' % ('/octant' if sym else ''), '%s: %d intervals give an energy %.3g away (relative) from the independent '
                       'reference %r' % (t, ks[-1][0], last, eref))
-            if len(ks) > 1 and not last <= errs[ks[-2]] + 1e-6:
+            if len(ks) > 1 and not last <= errs[ks[-2]] + 1e-3:
                 V.add('intervals/not-converging%s' % ('/octant' if sym else ''), '%s: error %.3g at %d intervals, %.3g at %d'
                       % (t, errs[ks[-2]], ks[-2][0], last, ks[-1][0]))
     return {'viol': V.out(), 'states': nst, 'transitions': ntr, 'outcome': 'intervals/%s' % ('octant+full' if case['symmetric_ok'] else 'full'),
